@@ -287,6 +287,12 @@ func (i *Interpreter) eval(expr ast.Expr, env *environment.Environment, isRepl b
 			arguments = append(arguments, argValue)
 		}
 
+		// A runtime error while evaluating the callee or an argument stops the
+		// program: the function must not be entered any more
+		if utils.HadRuntimeError {
+			return nil, &ControlFlowSignal{Type: ControlFlowNone, LineNumber: 0}
+		}
+
 		// Step 3: Call the function and return its result
 		result, err := function.Call(i, arguments)
 		if err != nil {
